@@ -7,6 +7,7 @@ import (
 	"go/types"
 	"math"
 	"math/big"
+	"os"
 	"sort"
 	"strings"
 
@@ -94,11 +95,79 @@ type Frame struct {
 	onEntry    func(st *State)
 	exact64    bool
 	fspec      *frameSpec
+	siteOrds   map[ssa.Instruction]int
+	curInstr   ssa.Instruction
 }
 
 type Exec struct {
 	vc  *VC
 	eng *Engine
+}
+
+// siteOrd: ordinal of an at-site instruction among the sites of the same
+// kind, in source order (independent of the traversal order of the CFG).
+func (fr *Frame) siteOrd(kind string, in ssa.Instruction) int {
+	if fr.siteOrds == nil {
+		fr.siteOrds = map[ssa.Instruction]int{}
+		type ent struct {
+			in   ssa.Instruction
+			pos  token.Pos
+			b, k int
+		}
+		groups := map[string][]ent{}
+		for _, b := range fr.fn.Blocks {
+			for k, i := range b.Instrs {
+				var name string
+				switch v := i.(type) {
+				case *ssa.Go:
+					name = "go"
+				case *ssa.Send:
+					name = "send"
+				case *ssa.Select:
+					name = "select"
+				case *ssa.MakeChan:
+					name = "makechan"
+				case *ssa.UnOp:
+					if v.Op == token.ARROW {
+						name = "recv"
+					}
+				case *ssa.Call:
+					if b2, ok := v.Call.Value.(*ssa.Builtin); ok {
+						if b2.Name() == "close" {
+							name = "close"
+						}
+					} else {
+						name = "call:" + shortCallee(&v.Call)
+					}
+				case *ssa.Defer:
+					if _, ok := v.Call.Value.(*ssa.Builtin); !ok {
+						name = "call:" + shortCallee(&v.Call)
+					}
+				}
+				if name != "" {
+					groups[name] = append(groups[name], ent{i, i.Pos(), b.Index, k})
+				}
+			}
+		}
+		for _, g := range groups {
+			sort.SliceStable(g, func(a, c int) bool {
+				if g[a].pos != g[c].pos {
+					return g[a].pos < g[c].pos
+				}
+				if g[a].b != g[c].b {
+					return g[a].b < g[c].b
+				}
+				return g[a].k < g[c].k
+			})
+			for n, e := range g {
+				fr.siteOrds[e.in] = n
+			}
+		}
+	}
+	if n, ok := fr.siteOrds[in]; ok {
+		return n
+	}
+	return fr.nextOrd("dyn:" + kind)
 }
 
 func (fr *Frame) nextOrd(kind string) int {
@@ -615,6 +684,17 @@ func (x *Exec) enterLoop(fr *Frame, li *loopInfo, cur *State, ins []edgeState) *
 	for k, inv := range spec.Invariants {
 		g := x.evalClause(fr, cur, inv, x.iterVars(fr, cur, li))
 		x.vc.oblige(fmt.Sprintf("%s/inv-entry:loop%d#%s", fr.unit, li.ordinal, clauseID(inv, k)), "inv-entry", fr.unit, x.pos(li.minPos), inv.Text, cur.pc, g)
+	}
+	if os.Getenv("GOVC_DEBUG") != "" {
+		var ks []string
+		for _, k := range sortedKeys(li.modKeys) {
+			ks = append(ks, x.vc.heapNames[k]+"="+k)
+		}
+		var cs []string
+		for c := range li.modCells {
+			cs = append(cs, c.Comment)
+		}
+		fmt.Fprintf(os.Stderr, "DEBUG %s loop%d header b%d blocks=%d modAll=%v keys=%v cells=%v ghost=%v\n", fr.unit, li.ordinal, li.header.Index, len(li.blocks), li.modAll, ks, cs, li.ghostMod)
 	}
 	// 2. havoc
 	before := cur.clone()
